@@ -299,10 +299,10 @@ def gen_plan(seed, prop, faults, nested=False):
                         'smap': [], 'labs': [],
                         'F': [[], [[]]] if cfg['fair'] else [],
                         'S0': []})
-    if prop == 'C19' and rng.random() < 0.04:
+    if prop == 'C19' and rng.random() < 0.02:
         # a long corridor: 1 100-1 500 states in a chain that ends in a
         # self-loop (deep paths, shallow everything else); CTL queries only
-        n = rng.choice([1100, 1300, 1500])
+        n = rng.choice([1100, 1300])
         E = [[i, i + 1] for i in range(n - 1)] + [[n - 1, n - 1]]
         lab = [['p'] for _ in range(n)]
         lab[n - 1] = ['p', 'u']
